@@ -179,9 +179,19 @@ struct QOp {
 
 static std::string goZ(const Case& c) { ZOp op(c.op, c.extra); return run_two<Integer, IOZ>(c, op); }
 static std::string goQ(const Case& c) { QOp op(c.op, c.extra); return run_two<Rational, IOQ>(c, op); }
+// dom "QN": the same operations with the process-wide mode Rational::SetNoReduce() (results are not reduced: the python
+// side compares VALUES).  The flag is set for the case and restored; these cases also run in a harness process of their own.
+static std::string goQN(const Case& c) {
+    Rational::SetNoReduce();
+    QOp op(c.op, c.extra);
+    std::string r = run_two<Rational, IOQ>(c, op);
+    Rational::SetReduce();
+    return r;
+}
 
 int main() {
     dom_table()["Z"] = &goZ;
     dom_table()["Q"] = &goQ;
+    dom_table()["QN"] = &goQN;
     return main_loop();
 }
